@@ -21,7 +21,10 @@ def build(pid, P, R, tier, log_dir):
             mp.XOb("X-check_try", "", "", lambda: run_check_try(P, R, mp, log_dir)),
             mp.XOb("X-match_exhaustive", "", "", lambda: run_match_exhaustive(P, R, mp, log_dir, 3 if tier == "quick" else 4)),
             mp.XOb("X-ctor_fields", "", "", lambda: run_ctor_fields(P, R, mp, log_dir, 2 if tier == "quick" else 3)),
-            mp.XOb("X-check_ident_return", "", "", lambda: run_ident_return(P, R, mp, log_dir))]
+            mp.XOb("X-check_ident_return", "", "", lambda: run_ident_return(P, R, mp, log_dir)),
+            mp.XOb("X-check_if", "", "", lambda: run_check_if(P, R, mp, log_dir, 2 if tier == "quick" else 3)),
+            mp.XOb("X-generic_nominal", "", "", lambda: run_generic_nominal(P, R, mp, log_dir)),
+            mp.XOb("X-error_type_frame", "", "", lambda: run_error_type_frame(P, R, mp, log_dir))]
 
 
 def executor(P, R):
@@ -409,6 +412,8 @@ MATCH_PROGRAMS = [
     ("all_variants", "enum Shape:\n    Circle(int)\n    Square(int)\n\ndef f(s: Shape) -> int:\n    match s:\n        case Circle(r):\n            return r\n        case Square(w):\n            return w\n    return 0\n", "ACCEPTED", None),
     ("wildcard", "enum Shape:\n    Circle(int)\n    Square(int)\n    Dot\n\ndef f(s: Shape) -> int:\n    match s:\n        case Circle(r):\n            return r\n        case _:\n            return 1\n    return 0\n", "ACCEPTED", None),
     ("duplicate_arm_hides_missing", "enum Shape:\n    Circle(int)\n    Square(int)\n    Dot\n\ndef f(s: Shape) -> int:\n    match s:\n        case Circle(r):\n            return r\n        case Circle(q):\n            return q\n        case Square(w):\n            return w\n    return 0\n", "REJECTED", "exhaustive"),
+    ("foreign_ctor_hides_missing", "enum Shape:\n    Circle(int)\n    Square(int)\n    Dot\n\nenum Light:\n    Amber(int)\n\ndef f(s: Shape) -> int:\n    match s:\n        case Circle(r):\n            return r\n        case Square(w):\n            return w\n        case Amber(q):\n            return q\n    return 0\n", "REJECTED", "exhaustive"),
+    ("no_arm_names_a_variant", "enum Shape:\n    Circle(int)\n\nenum Light:\n    Amber(int)\n\ndef f(s: Shape) -> int:\n    match s:\n        case Amber(q):\n            return q\n    return 0\n", "REJECTED", "exhaustive"),
     ("option_missing_none", "def f(o: Option[int]) -> int:\n    match o:\n        case Some(x):\n            return x\n    return 2\n", "REJECTED", "exhaustive"),
     ("result_missing_err", "def f(o: Result[int, str]) -> int:\n    match o:\n        case Ok(x):\n            return x\n    return 2\n", "REJECTED", "exhaustive"),
 ]
@@ -654,3 +659,288 @@ def replay(pid, line, path):
     if r.get("status") == "known-finding":
         say(f"KNOWN-FINDING: property={pid} {r.get('finding')}")
     return 0
+
+
+# ---- if / elif / else: every condition and every body is checked ---------------------------------------------------------------------------
+def run_check_if(P, R, mp, log_dir, bound):
+    import tc_props
+    t0 = time.time()
+    bad, n_ok, classes, encoded, exs = [], 0, {}, [], []
+    for fname, ty, an_ty in (("check_if_stmt", "incan_syntax::ast::IfStmt", "IfStmt"), ("check_if_expr", "incan_syntax::ast::IfExpr", "IfExpr")):
+        f = tc_props.find_fn(P, fname)
+        ex = executor(P, R)
+        ex.model_sequences = True
+        ex.seq_bound = bound
+        ex.recursion_bound = 0
+        ex.summarize = list(ex.summarize) + [r"::check_expr$", r"::check_statement$", r"ensure_bool_condition$"]
+        selfv = ex.sym_value("TypeChecker", "self")
+        node = ex.sym_value(ty, "node")
+        args = [selfv, node] + ([symex.Opaque("span")] if fname == "check_if_expr" else [])
+        outs = ex.run(f, args)
+        encoded += ex.encoded
+        names = [x[0] for x in R.resolve(ty).variants[0][1]]
+        i_cond, i_then, i_else = names.index("condition"), names.index("then_body"), names.index("else_body")
+        i_elif = names.index("elif_branches") if "elif_branches" in names else None
+        for o in outs:
+            if o.kind != "return":
+                bad.append((conj(o.pc), f"{fname}: {o.kind}: {o.info}"))
+                continue
+            n_ok += 1
+            facts = o.state.facts
+            trace = []
+            for e in o.events:
+                nm = e[0].split("::")[-1]
+                if nm == "check_expr":
+                    trace.append(("cond", e[1][1]))
+                elif nm == "check_statement":
+                    trace.append(("stmt", e[1][1]))
+                elif nm == "enter_scope":
+                    trace.append(("enter",))
+                elif nm == "exit_scope":
+                    trace.append(("exit",))
+
+            def body(seqname):
+                n = facts.get("len:" + seqname)
+                return None if n is None else [("enter",)] + [("stmt", f"sym<{seqname}.e{j}:Spanned>") for j in range(n)] + [("exit",)]
+            want = [("cond", f"sym<node.{i_cond}:Spanned>")]
+            tb = body(f"node.{i_then}")
+            missing = None
+            if tb is None:
+                missing = "the `if` body is never visited"
+            else:
+                want += tb
+            if i_elif is not None:
+                ne = facts.get(f"len:node.{i_elif}")
+                if ne is None:
+                    missing = missing or "the elif branches are never visited"
+                else:
+                    for k in range(ne):
+                        want.append(("cond", f"sym<node.{i_elif}.e{k}.0:Spanned>"))
+                        eb = body(f"node.{i_elif}.e{k}.1")
+                        if eb is None:
+                            missing = missing or f"the body of elif #{k} is never visited"
+                        else:
+                            want += eb
+            et = facts.get(f"node.{i_else}!tag")
+            if not et or et[0] != "eq":
+                missing = missing or "the else branch is never examined"
+            elif et[1] == 1:
+                eb = body(f"node.{i_else}.Some.0")
+                if eb is None:
+                    missing = missing or "the else body is never visited"
+                else:
+                    want += eb
+            key = f"{fname}: elif={facts.get(f'len:node.{i_elif}') if i_elif is not None else '-'} else={et and et[1]}"
+            classes[key] = classes.get(key, 0) + 1
+            if missing:
+                bad.append((conj(o.pc), f"{fname}: {missing}: checked {[t[1][4:24] if len(t) > 1 else t[0] for t in trace]}"))
+            elif trace != want:
+                bad.append((conj(o.pc), f"{fname}: checks {[t[1][4:24] if len(t) > 1 else t[0] for t in trace]}, documented "
+                                        f"{[t[1][4:24] if len(t) > 1 else t[0] for t in want]}"))
+        exs.append(ex)
+    r = {"id": "X-check_if", "engine": "E2-X mirsmt",
+         "statement": "type checker, `if` statements and `if` expressions: EVERY condition (the `if` and each `elif`) is type-checked and must be bool, and EVERY statement of "
+                      "every body (`if`, each `elif`, `else`) is checked, each body inside its own scope - so a rule broken inside an elif / else branch is reported like "
+                      "anywhere else",
+         "bound": f"TypeChecker::check_if_stmt / check_if_expr: bodies and elif lists of 0..={bound} elements, else present / absent; check_expr / check_statement / the scope "
+                  "calls are events (what they do with a sub-term is decided by their own obligations)",
+         "encoding": "the statement as a symbolic struct; bodies and the elif list as symbolic sequences",
+         "functions_encoded": sorted(set(n_ + " (MIR)" for n_ in encoded)), "paths": n_ok, "compositions": dict(sorted(classes.items())[:12])}
+    r["wall_s"] = round(time.time() - t0, 2)
+    # the two executors have disjoint variables: decide each deviation in its own context
+    r["vacuity_ok"] = n_ok > 0
+    live = [(b, w) for b, w in bad if b != "false"]
+    for b, w in live:
+        if any(solver.check(mp.smt_lines(ex, [b]), [], "z3", 60).status == "sat" for ex in exs):
+            r["deviating_path"] = w
+            return native_if_rule(r, log_dir)
+    if n_ok == 0:
+        r.update(status="inconclusive", reason="no path explored")
+        return r
+    r.update(status="held", solver=f"{n_ok} paths visit every condition and body in order" + (f"; {len(live)} deviating paths infeasible" if live else " (syntactic)"))
+    return r
+
+
+IF_PROGRAMS = [
+    ("unknown_name_in_elif_body", "def f(n: int) -> int:\n    if n > 0:\n        return 1\n    elif n < 0:\n        return nope\n    return 0\n", "REJECTED", "nope"),
+    ("wrong_return_in_second_elif", "def f(n: int) -> int:\n    if n > 0:\n        return 1\n    elif n < 0:\n        return 2\n    elif n == 0:\n        return \"zero\"\n    return 0\n", "REJECTED", None),
+    ("non_bool_elif_condition", "def f(n: int) -> int:\n    if n > 0:\n        return 1\n    elif n:\n        return 2\n    return 0\n", "REJECTED", None),
+    ("unknown_name_in_elif_condition", "def f(n: int) -> int:\n    if n > 0:\n        return 1\n    elif nope > 0:\n        return 2\n    return 0\n", "REJECTED", "nope"),
+    ("unknown_name_in_else_body", "def f(n: int) -> int:\n    if n > 0:\n        return 1\n    else:\n        return nope\n", "REJECTED", "nope"),
+    ("unknown_name_in_if_body", "def f(n: int) -> int:\n    if n > 0:\n        return nope\n    return 0\n", "REJECTED", "nope"),
+    ("well_typed_ladder", "def f(n: int) -> int:\n    if n > 0:\n        return 1\n    elif n < 0:\n        return 2\n    else:\n        return 3\n", "ACCEPTED", None),
+    ("if_expr_unknown_in_else", "def f(c: bool) -> int:\n    x = if c:\n        1\n    else:\n        nope\n    return 0\n", "REJECTED", "nope"),
+]
+
+
+def native_if_rule(r, log_dir):
+    broken, texts = verdicts(IF_PROGRAMS, log_dir, "c03if")
+    return report(r, log_dir, "if", broken, texts, f"{len(IF_PROGRAMS)} programs with an error inside if / elif / else conditions and bodies are rejected as documented")
+
+
+# ---- generic user types are nominal in their base name ---------------------------------------------------------------------------------------
+def run_generic_nominal(P, R, mp, log_dir):
+    import tc_props
+    t0 = time.time()
+    f = tc_props.find_fn(P, "types_compatible")
+    ex = executor(P, R)
+    ex.model_sequences = True
+    ex.seq_bound = 2
+    ex.recursion_bound = 1
+    ex.summarize = [p for p in ex.summarize if "types_compatible" not in p and "Clone" not in p] + \
+        [r"String as .*PartialEq.*>::eq$", r"^<str as .*PartialEq.*>::eq$", r"stringlike_type_id$", r"collection_type_id$", r"Iterator>::all::<", r"Iterator>::zip::<"]
+    selfv = ex.sym_value("TypeChecker", "self")
+    a = ex.sym_value("symbols::ResolvedType", "actual")
+    b = ex.sym_value("symbols::ResolvedType", "expected")
+    rvars = mp.variants(R, "ResolvedType")
+    G = rvars.index("Generic")
+    st0 = symex.State()
+    for v in (a, b):
+        st0.facts[v.tag().term] = ("eq", G)
+        st0.pc.append(f"(= {v.tag().term} {G})")
+    outs = ex.run(f, [selfv, a, b], state=st0)
+    an, bn = a.child("Generic", 0).name, b.child("Generic", 0).name
+    bad, n_ok = [], 0
+    for o in outs:
+        if o.kind != "return":
+            bad.append((conj(o.pc), f"{o.kind}: {o.info}"))
+            continue
+        v = ex.deref(o.value, o.state)
+        if not (isinstance(v, symex.Scalar) and v.sort == "bool"):
+            bad.append((conj(o.pc), "no boolean verdict"))
+            continue
+        n_ok += 1
+        whole = next((e[2] for e in o.events if e[0].endswith("::eq") and len(e[1]) == 2 and
+                      {"actual", "expected"} == {re.sub(r"^sym<([^:>]+):.*$", r"\1", x) for x in e[1]}), None)
+        if whole is not None and whole in o.pc:
+            continue            # structurally equal types (`actual == expected`): trivially the same base name
+        same = next((e[2] for e in o.events if (e[0].endswith("::eq") or e[0].endswith("::ne")) and len(e[1]) == 2 and
+                     {an, bn} <= {re.sub(r"^sym<([^:>]+):.*$", r"\1", x) for x in e[1]}), None)
+        is_ne = any(e[2] == same and e[0].endswith("::ne") for e in o.events)
+        same_t = "false" if same is None else (f"(not {same})" if is_ne else same)
+        # an uninterpreted question asked twice has one answer (the derived `==` on the whole types asks it first)
+        groups = {}
+        for e in o.events:
+            if (e[0].endswith("::eq") or e[0].endswith("::ne")) and len(e[1]) == 2:
+                groups.setdefault((e[0].endswith("::ne"), frozenset(e[1])), []).append(e[2])
+        consistent = [f"(= {g[0]} {x})" for g in groups.values() for x in g[1:]]
+        for (ne1, k1), g1 in groups.items():
+            for (ne2, k2), g2 in groups.items():
+                if k1 == k2 and ne1 and not ne2:
+                    consistent.append(f"(= {g1[0]} (not {g2[0]}))")
+        bad.append((conj(o.pc + consistent + [v.term, f"(not {same_t})"]),
+                    f"Generic(n1, ..) accepted for Generic(n2, ..) on a path where n1 == n2 is {'not even asked' if same is None else 'answered false'} "
+                    f"(verdict {v.term[:80]})"))
+    r = {"id": "X-generic_nominal", "engine": "E2-X mirsmt",
+         "statement": "user-defined generic types are nominal in their base name: a value of type A[..] is accepted where B[..] is declared only if the base names are equal "
+                      "(whatever the arguments) - two different generic models / classes / enums with compatible arguments are not interchangeable",
+         "bound": "TypeChecker::types_compatible with actual = Generic(n1, args1), expected = Generic(n2, args2), argument lists of 0..=2 types; name equality, "
+                  "the built-in name lookups and the element-wise comparison are arbitrary (uninterpreted) answers",
+         "encoding": "enum tags as bounded Int; name equality as an uninterpreted boolean", "functions_encoded": [n + " (MIR)" for n in ex.encoded],
+         "paths": len(outs)}
+    r["wall_s"] = round(time.time() - t0, 2)
+    return finish(r, ex, mp, bad, n_ok, log_dir, native_generic)
+
+
+GENERIC_PROGRAMS = [
+    ("two_generic_models_return", "model Meters[T]:\n    v: T\n\nmodel Seconds[T]:\n    v: T\n\ndef f(m: Meters[int]) -> Seconds[int]:\n    return m\n", "REJECTED", None),
+    ("two_generic_models_assign", "model Meters[T]:\n    v: T\n\nmodel Seconds[T]:\n    v: T\n\ndef f(m: Meters[int]) -> int:\n    s: Seconds[int] = m\n    return 0\n", "REJECTED", None),
+    ("same_generic_model", "model Meters[T]:\n    v: T\n\ndef f(m: Meters[int]) -> Meters[int]:\n    return m\n", "ACCEPTED", None),
+    ("list_vs_set", "def f(m: List[int]) -> Set[int]:\n    return m\n", "REJECTED", None),
+    ("list_vs_list", "def f(m: List[int]) -> List[int]:\n    return m\n", "ACCEPTED", None),
+]
+
+
+def native_generic(r, log_dir):
+    broken, texts = verdicts(GENERIC_PROGRAMS, log_dir, "c03generic")
+    return report(r, log_dir, "generic", broken, texts, f"{len(GENERIC_PROGRAMS)} programs mixing generic user types are rejected / accepted as documented")
+
+
+# ---- the declared error type of the enclosing function stays in force for the whole body ---------------------------------------------------
+def run_error_type_frame(P, R, mp, log_dir):
+    t0 = time.time()
+    td = R.resolve("TypeChecker")
+    names = [x[0] for x in td.variants[0][1]]
+    if "current_return_error_type" not in names:
+        raise Inconclusive("TypeChecker has no field current_return_error_type any more")
+    k = names.index("current_return_error_type")
+    path = os.path.join(common.WORK_DIR, "mir", "incan.mir")
+    text = open(path, errors="replace").read()
+    writers, cur = {}, None
+    pat = re.compile(r"^\s*\(\(\*_\d+\)\." + str(k) + r": std::option::Option<(?:frontend::)?symbols::ResolvedType>\) = (.*);")
+    for line in text.splitlines():
+        m = re.match(r"^fn (.+?)\((.*)$", line)
+        if m:
+            # only functions whose receiver is the type checker (other structs have fields of the same type at the same index)
+            cur = m.group(1) if re.match(r"^_1: &(mut )?(\w+::)*TypeChecker\b", m.group(2)) else None
+            continue
+        m = pat.match(line)
+        if m and cur:
+            writers.setdefault(cur, []).append(m.group(1))
+    allowed = ("check_function", "check_method", "check_method_with_self_ty", "new")
+    bad_fns = {f: w for f, w in writers.items() if not any(f.endswith(a) or f.split("::")[-1] == a for a in allowed)}
+    r = {"id": "X-error_type_frame", "engine": "E2-X mirsmt",
+         "statement": "the error type against which `?` is checked (TypeChecker.current_return_error_type) is written only where a function / method body is entered and left: "
+                      "no expression or statement rule (closures, comprehensions, calls, ...) changes it - so every `?` of a body is checked against the enclosing "
+                      "function's declared error type, wherever it stands; and the two writers set it from the declared return type before the body's statements are "
+                      "checked and clear it after",
+         "bound": "frame condition over the MIR of every function of the crate (a write is an assignment to that field through a TypeChecker reference) + symbolic execution "
+                  "of check_function for the order set -> statements -> clear (bodies of 0..=2 statements)",
+         "encoding": "MIR assignments to the field; check_function with check_statement / scope calls as events",
+         "writers": sorted(writers)[:8]}
+    dev = None
+    if bad_fns:
+        fn_, w_ = sorted(bad_fns.items())[0]
+        dev = f"`{fn_}` assigns current_return_error_type = {w_[0][:60]}"
+    if not any(f.endswith("check_function") for f in writers):
+        dev = dev or "check_function no longer sets the declared error type"
+    # order inside check_function: set (from result_err_type of the declared type) before any statement of the body is checked, cleared after
+    import tc_props
+    n_ok = 0
+    try:
+        f = tc_props.find_fn(P, "check_function")
+        ex = executor(P, R)
+        ex.model_sequences = True
+        ex.seq_bound = 2
+        ex.summarize = list(ex.summarize) + [r"::check_statement$", r"::check_expr$", r"resolve_type", r"::check_\w+$", r"HashMap::<.*>::\w+$", r"HashSet::<.*>::\w+$"]
+        selfv = Adt("TypeChecker", None, [(n_, ex.sym_value(t_, f"self.{i}", td.modpath)) for i, (n_, t_) in enumerate(td.variants[0][1])])
+        st0 = symex.State()
+        from mir import Place
+        st0.store[0] = {"_self": selfv}
+        func = ex.sym_value("incan_syntax::ast::FunctionDecl", "func")
+        outs = ex.run(f, [symex.Ref(0, Place("_self")), func], state=st0)
+        r["functions_encoded"] = [n + " (MIR)" for n in ex.encoded]
+        for o in outs:
+            if o.kind != "return":
+                continue
+            n_ok += 1
+            fin = dict(o.state.store[0]["_self"].fields)["current_return_error_type"]
+            if not (isinstance(fin, Adt) and fin.variant == "None"):
+                dev = dev or f"check_function leaves current_return_error_type = {mirx.show(fin, ex, o.state)[:60]} behind"
+    except Exception as x:   # the order part is an extra; the frame condition above stands on its own
+        r["order_part"] = f"not executable: {str(x)[:160]}"
+    r["paths"] = n_ok
+    r["wall_s"] = round(time.time() - t0, 2)
+    r["vacuity_ok"] = bool(writers)
+    if not writers:
+        r.update(status="inconclusive", reason="no write to the field found in the MIR dump (pattern out of date?)")
+        return r
+    if dev is None:
+        r.update(status="held", solver=f"{len(writers)} writer function(s), all function / method entry points; {n_ok} paths of check_function clear the field on exit")
+        return r
+    r["deviating_path"] = dev
+    return native_error_frame(r, log_dir)
+
+
+ERRTYPE_PROGRAMS = [
+    ("try_after_closure", "def g() -> Result[int, int]:\n    return Ok(1)\n\ndef f() -> Result[int, str]:\n    h = (x) => x + 1\n    v = g()?\n    return Ok(v)\n", "REJECTED", None),
+    ("try_after_closure_argument", "def g() -> Result[int, int]:\n    return Ok(1)\n\ndef ap(k: (int) -> int) -> int:\n    return k(1)\n\ndef f() -> Result[int, str]:\n    w = ap((x) => x + 1)\n    v = g()?\n    return Ok(v)\n", "REJECTED", None),
+    ("try_before_closure", "def g() -> Result[int, int]:\n    return Ok(1)\n\ndef f() -> Result[int, str]:\n    v = g()?\n    h = (x) => x + 1\n    return Ok(v)\n", "REJECTED", None),
+    ("try_same_error_after_closure", "def g() -> Result[int, str]:\n    return Ok(1)\n\ndef f() -> Result[int, str]:\n    h = (x) => x + 1\n    v = g()?\n    return Ok(v)\n", "ACCEPTED", None),
+    ("try_in_second_function", "def g() -> Result[int, int]:\n    return Ok(1)\n\ndef a() -> Result[int, int]:\n    v = g()?\n    return Ok(v)\n\ndef f() -> Result[int, str]:\n    v = g()?\n    return Ok(v)\n", "REJECTED", None),
+]
+
+
+def native_error_frame(r, log_dir):
+    broken, texts = verdicts(ERRTYPE_PROGRAMS, log_dir, "c03errtype")
+    return report(r, log_dir, "errtype", broken, texts, f"{len(ERRTYPE_PROGRAMS)} programs applying `?` before / after closures and across functions are rejected / accepted as documented")
